@@ -1078,8 +1078,6 @@ class Machine:
             if exc is None:
                 self.V('C20', 'factor-accepts-wrong-shape', ['constructor', f'rank{len(shape)}-vs-{len(sizes)}'],
                        f'FiniteFactor with domain sizes {sizes} accepted weights of shape {shape}')
-            elif not isinstance(exc, ValueError):
-                self.V('C20', 'factor-wrong-exception', ['constructor', type(exc).__name__], str(exc))
             return (None, exc, 'raise', False)
         if exc is None:
             self.facs.append({'real': f, 'doms': dis, 'dense': t.clone()})
